@@ -35,6 +35,8 @@ structure World where
   byz : List Nat := []
   hist : List Ev := []
   reps : List Rep := []
+  /-- `CommitteeData.LastRootHeightUpdated`: lock certificates from a root height below it are stale -/
+  lrhu : Nat := 0
 
 def World.init : World := {}
 
@@ -62,7 +64,7 @@ structure MsgD where
 deriving Repr
 
 inductive Op where
-  | cfg (n : Nat) (byz : List Nat) (pw : List Nat) (root : Nat)
+  | cfg (n : Nat) (byz : List Nat) (pw : List Nat) (root : Nat) (lrhu : Nat)
   | vote (e : Ev)
   | adopt (r : Nat) (q : View) (b : Nat)
   | commit (r : Nat) (v : View) (b : Nat)
@@ -115,7 +117,9 @@ def showView (v : View) : String := toString v.root ++ "." ++ toString v.round
 def showBlk (b : Nat) : String := toString (blkHashOf b) ++ "." ++ toString (resHashOf b)
 
 def parseOp : List String → Option Op
-  | ["cfg", n, byz, pw, root] => do some (.cfg (← parseNat n) (← parseList byz) (← parseList pw) (← parseNat root))
+  | ["cfg", n, byz, pw, root] => do some (.cfg (← parseNat n) (← parseList byz) (← parseList pw) (← parseNat root) 0)
+  | ["cfg", n, byz, pw, root, l] => do
+      some (.cfg (← parseNat n) (← parseList byz) (← parseList pw) (← parseNat root) (← parseNat l))
   | ["vote", "propose", r, v, b, hq] => do
       some (.vote (.propose (← parseNat r) (← parseView v) (← parseBlk b) (← parseOptView hq)))
   | ["vote", "precommit", r, v, b, q, qph] => do
@@ -305,7 +309,7 @@ def World.leaderVerdict (w : World) (s : Rep) (m : MsgD) : Verdict :=
     | none => none
     | some c =>
       if !(w.sigValid c) then some "ErrInvalidAggrSignature"
-      else Gen.Bft.checkHighQCPost (w.isPartial c.signers) (certHdr c) (hdrOf ⟨s.root, s.round⟩ s.phase) 0
+      else Gen.Bft.checkHighQCPost (w.isPartial c.signers) (certHdr c) (hdrOf ⟨s.root, s.round⟩ s.phase) w.lrhu
   if !(w.sigValid m.qc) then .err "ErrInvalidAggrSignature" else
   match hqErr with
   | some e => .err e
@@ -335,7 +339,7 @@ def World.electionVote (w : World) (r : Nat) (s : Rep) (v : View) (named : Optio
   if Gen.Bft.electionVoteIgnored (named == some r) v.round s.round s.phase then (s, "keep") else
   if Gen.Bft.highQcMissingProposal hasBlock hasResults then (s, "err:ErrNilBlock") else
   if !(w.sigValid hq) then (s, "err:ErrInvalidAggrSignature") else
-  match Gen.Bft.checkHighQCPost (w.isPartial hq.signers) (certHdr hq) (hdrOf ⟨s.root, s.round⟩ s.phase) 0 with
+  match Gen.Bft.checkHighQCPost (w.isPartial hq.signers) (certHdr hq) (hdrOf ⟨s.root, s.round⟩ s.phase) w.lrhu with
   | some e => (s, "err:" ++ e)
   | none =>
     let (hasLock, lockHdr) := match s.lock with
@@ -357,10 +361,10 @@ def World.lockAgrees (w : World) (r : Nat) : Bool :=
 /-! ### the step function -/
 
 def World.apply (w : World) : Op → World × String
-  | .cfg n byz pw root =>
+  | .cfg n byz pw root lrhu =>
     if pw.length != n || byz.any (· ≥ n) then (w, "bad-op") else
     let rep0 : Rep := { root := root, round := 0, phase := phase_ELECTION, lock := none, blk := none, proposer := none, commits := [] }
-    let w' : World := { n := n, pw := pw, byz := byz, hist := [], reps := (List.range n).map fun _ => rep0 }
+    let w' : World := { n := n, pw := pw, byz := byz, hist := [], reps := (List.range n).map fun _ => rep0, lrhu := lrhu }
     let c := w'.cfg
     let m := (Gen.Bft.minimumMaj23 (UInt64.ofNat c.total)).toNat
     if m != c.maj then (w', "maj-mismatch") else
